@@ -28,6 +28,7 @@ func (c *Ctx) crashSite(ins ssa.Instruction) string {
 		if !x.CommaOk && isErrorType(x.X.Type()) {
 			return "unchecked type assertion on an error (" + x.AssertedType.String() + ")"
 		}
+
 	case *ssa.Call:
 		if c.isPtermFatalCall(x) {
 			return "pterm.Fatal (panics)"
@@ -119,7 +120,7 @@ func (c *Ctx) cycleEntries() map[*ssa.Function]string {
 }
 
 func c09(c *Ctx) {
-	c.R.Explanation = "C09: decided over the VTA call graph of /repo. Entries = every FanController.UpdateFanSpeed implementation, the actors and interrupt functions of the per-fan run.Group, the sensor-monitor Run, prometheus Collect methods and REST handlers. R-nocrash = no crash site (builtin panic, pterm.Fatal/ui.Fatal, os.Exit/log.Fatal and repository wrappers that never return, comma-less type assertion on an error) lies in an *error context* reachable from those entries; error context = a block reachable from an edge establishing err != nil for an error-typed value, or any function called (transitively) from such a block. Crash sites outside error contexts are listed as not-on-an-I/O-error-path (configuration-dependent ones belong to C11). R-propagate = every SpeedCurve.Evaluate implementation returns a non-nil error on every path from the error edge of a fallible call. R-contain = from the error edge of UpdateFanSpeed in the control goroutine every return is the nil constant and no crash site is reachable. R-actor-nil = every return of every actor of the per-fan run.Group and of the sensor monitor is the nil constant (a non-nil actor error reaches ui.Fatal in the interrupt function and panic(err) in the daemon's actor wrapper). Not decided: usefulness of continued regulation; library internals (echo, prometheus) are summarised as non-crashing."
+	c.R.Explanation = "C09: decided over the VTA call graph of /repo. Entries = every FanController.UpdateFanSpeed implementation, the actors and interrupt functions of the per-fan run.Group, the sensor-monitor Run, prometheus Collect methods and REST handlers. R-nocrash = no crash site (builtin panic, pterm.Fatal/ui.Fatal, os.Exit/log.Fatal and repository wrappers that never return, comma-less type assertion on an error) lies in an *error context* reachable from those entries; error context = a block reachable from an edge establishing err != nil for an error-typed value, or any function called (transitively) from such a block. Crash sites outside error contexts are listed as not-on-an-I/O-error-path (configuration-dependent ones belong to C11). R-errpair = in the functions reachable from those entries, the value result of a fallible library call (T, error) with T a pointer or interface is dereferenced / has a method invoked only where the error of that same call is established nil; the one partial test of the code base, !os.IsNotExist(err) after os.Stat, is accepted only when the path handed to Stat is the result of a successful filepath.EvalSymlinks (which already failed for every path Stat would fail on; the race between the two calls is assumed away). R-propagate = every SpeedCurve.Evaluate implementation returns a non-nil error on every path from the error edge of a fallible call. R-contain = from the error edge of UpdateFanSpeed in the control goroutine every return is the nil constant and no crash site is reachable. R-actor-nil = every return of every actor of the per-fan run.Group and of the sensor monitor is the nil constant (a non-nil actor error reaches ui.Fatal in the interrupt function and panic(err) in the daemon's actor wrapper). Not decided: usefulness of continued regulation; library internals (echo, prometheus) are summarised as non-crashing."
 	c.R.Assumptions = append(c.R.Assumptions,
 		"pterm.Fatal printers panic (Fatal flag true) unless derived with WithFatal(false); os.Exit/log.Fatal never return",
 		"library code (echo, prometheus, bbolt, os/exec) does not panic on the inputs it is given")
@@ -191,6 +192,7 @@ func c09(c *Ctx) {
 	}
 	c.R.Ok("R-nocrash", "summary", "(call graph)", "-", sprintf("%d functions reachable from %d entries; %d crash sites inspected, %d in error context", len(reach), len(roots), nsites, nbad))
 	c.R.Stats["crash_sites_reachable"] = nsites
+	c.ruleErrPair(reach)
 
 	// ---- R-propagate ------------------------------------------------------------
 	for _, fn := range c.ImplMethods(PkgCurves, "SpeedCurve", "Evaluate") {
@@ -312,4 +314,111 @@ func (c *Ctx) definitelyNilError(v ssa.Value, depth int) bool {
 		return true
 	}
 	return false
+}
+
+// ruleErrPair: value results of fallible library calls are used only under err == nil.
+func (c *Ctx) ruleErrPair(reach map[*ssa.Function]bool) {
+	n := 0
+	for _, f := range c.SortedFuncs(reach) {
+		if !c.P.IsRepoFunc(f) {
+			continue
+		}
+		Calls(f, func(cc ssa.CallInstruction) {
+			call, ok := cc.(*ssa.Call)
+			if !ok {
+				return
+			}
+			st := ir.Callee(call).Static
+			if st == nil || c.P.IsRepoFunc(st) {
+				return // repository functions are covered by their own returns; interface invokes have no summary
+			}
+			tup, ok := call.Type().(*types.Tuple)
+			if !ok || tup.Len() != 2 || !isErrorType(tup.At(1).Type()) {
+				return
+			}
+			switch tup.At(0).Type().Underlying().(type) {
+			case *types.Pointer, *types.Interface:
+			default:
+				return
+			}
+			var val, errv ssa.Value
+			if refs := call.Referrers(); refs != nil {
+				for _, r := range *refs {
+					if ex, ok := r.(*ssa.Extract); ok {
+						if ex.Index == 0 {
+							val = ex
+						} else {
+							errv = ex
+						}
+					}
+				}
+			}
+			if val == nil {
+				return
+			}
+			name := ir.CallName(call)
+			// uses that crash on a nil value: method invoke on the interface, field/deref through the pointer
+			refs := val.Referrers()
+			if refs == nil {
+				return
+			}
+			for _, r := range *refs {
+				crash := false
+				switch u := r.(type) {
+				case ssa.CallInstruction:
+					com := u.Common()
+					if com.IsInvoke() && com.Value == val {
+						crash = true
+					}
+					if !com.IsInvoke() && len(com.Args) > 0 && com.Args[0] == val && com.Signature().Recv() != nil {
+						if _, isPtr := val.Type().Underlying().(*types.Pointer); isPtr && ir.Callee(u).Static != nil && c.P.IsRepoFunc(ir.Callee(u).Static) {
+							crash = true
+						}
+					}
+				case *ssa.FieldAddr:
+					crash = u.X == val
+				case *ssa.UnOp:
+					crash = u.Op == token.MUL && u.X == val
+				case *ssa.TypeAssert:
+					crash = u.X == val && !u.CommaOk
+				}
+				if !crash {
+					continue
+				}
+				n++
+				key := c.FK(f) + "|" + name
+				facts := ir.BlockFacts(r.Block())
+				nilErr := errv != nil && ir.HasFact(facts, token.EQL, func(x, y ssa.Value) bool { return x == errv && ir.IsNilConst(y) })
+				if errv == nil {
+					c.R.Bad("R-errpair", key, c.FK(f), c.P.Pos(r.Pos()), "the error of "+name+" is discarded but its value result is used in a way that crashes when it is nil")
+					continue
+				}
+				if nilErr {
+					c.R.Ok("R-errpair", key, c.FK(f), c.P.Pos(r.Pos()), "the value of "+name+" is used only where its error is nil")
+					continue
+				}
+				// the documented partial test: !os.IsNotExist(err) after os.Stat(p), p = successful EvalSymlinks
+				if name == "os.Stat" || name == "os.Lstat" {
+					notNotExist := ir.HasBool(facts, false, func(v ssa.Value) bool {
+						bc, ok := v.(*ssa.Call)
+						return ok && (ir.CallName(bc) == "os.IsNotExist" || ir.CallName(bc) == "errors.Is") && len(bc.Call.Args) > 0 && ir.Resolve(bc.Call.Args[0]) == errv
+					})
+					resolved := false
+					if ex, ok := ir.Resolve(call.Call.Args[0]).(*ssa.Extract); ok && ex.Index == 0 {
+						if ec, ok := ex.Tuple.(*ssa.Call); ok && ir.CallName(ec) == "path/filepath.EvalSymlinks" {
+							ee := errValueOfCall(ec)
+							resolved = ee != nil && ir.HasFact(facts, token.EQL, func(x, y ssa.Value) bool { return x == ir.Resolve(ee) && ir.IsNilConst(y) })
+						}
+					}
+					if notNotExist && resolved {
+						c.R.Add(obOK("R-errpair", key, c.FK(f), c.P.Pos(r.Pos()), "os.Stat on the result of a successful filepath.EvalSymlinks, 'not found' handled: no other failure is left", []string{"no concurrent removal / permission change between EvalSymlinks and Stat"}))
+						continue
+					}
+				}
+				c.R.Bad("R-errpair", key, c.FK(f), c.P.Pos(r.Pos()), "the value result of "+name+" is used (nil dereference / method call on a nil interface) on a path where its error is not established nil: a failing call crashes the cycle instead of returning an error")
+			}
+		})
+	}
+	c.R.Stats["error_paired_uses"] = n
+	c.R.Require("R-errpair", 1)
 }
